@@ -134,10 +134,10 @@ func (c *C) ClassN(k string, n int) {
 	st(c.name).Classes[k] += int64(n)
 	mu.Unlock()
 }
-func (c *C) Discard(reason string)  { mu.Lock(); st(c.name).Discarded[reason]++; mu.Unlock() }
-func (c *C) Excluded(id string)     { mu.Lock(); st(c.name).Excluded[id]++; mu.Unlock() }
-func (c *C) Note(k string, v any)   { mu.Lock(); st(c.name).Notes[k] = v; mu.Unlock() }
-func (c *C) SetExhaustive(b bool)   { mu.Lock(); st(c.name).Exhaustive = b; mu.Unlock() }
+func (c *C) Discard(reason string) { mu.Lock(); st(c.name).Discarded[reason]++; mu.Unlock() }
+func (c *C) Excluded(id string)    { mu.Lock(); st(c.name).Excluded[id]++; mu.Unlock() }
+func (c *C) Note(k string, v any)  { mu.Lock(); st(c.name).Notes[k] = v; mu.Unlock() }
+func (c *C) SetExhaustive(b bool)  { mu.Lock(); st(c.name).Exhaustive = b; mu.Unlock() }
 func (c *C) ClassCount(k string) int64 {
 	mu.Lock()
 	defer mu.Unlock()
